@@ -18,7 +18,7 @@ fn spec(t: Tier) -> Spec {
         id: "C14",
         level: "exploration",
         rule: format!(
-            "sandbox of sparse files whose sizes are {{0,1,2,3}} and k*u-1, k*u, k*u+1 for u in {{2,512,2^10,2^20,2^30}}, k<={k}{big}; files with 1..4 hard links; files owned by ids {{0,1,54321,2^31,2^32-2}}; files whose a/m timestamps are k*P-1s, k*P-1ns, k*P, k*P+1ns, k*P+1s old (P in {{60,86400}}, k<={kt}) under an injected clock. For every numeric primary (-size x 7 unit spellings, -links, -inum, -uid, -gid, -atime/-ctime/-mtime, -amin/-cmin/-mmin) the operand list is {{m-1,m,m+1 : m a measured value present in the sandbox}} + {{0, 2^31, 2^63-1, 2^63, 2^64-1}} (+ zero-padded spellings, also to 25 and 40 digits), and for every (entry, N) the three forms N, +N, -N are evaluated by the real find in one comma-list run; each must equal (measured ==,>,< N) with measured = ceil(size/unit), st_nlink, st_ino, st_uid, st_gid, floor((now-timestamp)/P) computed from lstat() read back from the sandbox; trichotomy and monotonicity in N are also checked directly on the outputs. The six time tests also run under -daystart (trichotomy and monotonicity only). A second directory holds entries that are not regular files (directory, fifo, links to a file and to a directory, dangling links whose own length is 1, 511..513, 1024, 1025, links whose contents are not valid UTF-8): -size (c, b, k), -links and -inum are judged on them with and without -L, against stat() resp. lstat(). evaluation = (entry, N, form); non-trivial = |measured-N| <= 1",
+            "sandbox of sparse files whose sizes are {{0,1,2,3}} and k*u-1, k*u, k*u+1 for u in {{2,512,2^10,2^20,2^30}}, k<={k}{big}; files with 1..4 hard links; files owned by ids {{0,1,54321,2^31,2^32-2}}; files whose a/m timestamps are k*P-1s, k*P-1ns, k*P, k*P+1ns, k*P+1s old (P in {{60,86400}}, k<={kt}) under an injected clock. For every numeric primary (-size x 7 unit spellings, -links, -inum, -uid, -gid, -atime/-ctime/-mtime, -amin/-cmin/-mmin) the operand list is {{m-1,m,m+1 : m a measured value present in the sandbox}} + {{0, 2^31, 2^63-1, 2^63, 2^64-1}} (+ zero-padded spellings, also to 25 and 40 digits), and for every (entry, N) the three forms N, +N, -N are evaluated by the real find in one comma-list run; each must equal (measured ==,>,< N) with measured = ceil(size/unit), st_nlink, st_ino, st_uid, st_gid, floor((now-timestamp)/P) computed from lstat() read back from the sandbox; trichotomy and monotonicity in N are also checked directly on the outputs. low-descriptor slice: 150 directories (one file each, all hard links to one inode, plus a link to it) walked by the binary under RLIMIT_NOFILE 64: for nine (primary, N) pairs the three forms partition the 451 entries; removed-entry slice: an entry removed by an earlier -exec rm in the same expression before the test looks at it: standard output is exactly the entries the test selects (the diagnostic belongs on standard error). The six time tests also run under -daystart (trichotomy and monotonicity only). A second directory holds entries that are not regular files (directory, fifo, links to a file and to a directory, dangling links whose own length is 1, 511..513, 1024, 1025, links whose contents are not valid UTF-8): -size (c, b, k), -links and -inum are judged on them with and without -L, against stat() resp. lstat(). evaluation = (entry, N, form); non-trivial = |measured-N| <= 1",
             k = t.pick(3, 4),
             big = " plus 2^31+-1, 2^32+-1, 5*2^30+1, 2^40+1, 2^62+1",
             kt = t.pick(2, 5)
